@@ -114,7 +114,7 @@ Definition sumabsB (l : list (Cplx bf)) : bf :=
   fold_left (fun a z => add NumB a (add NumB (babs (fst z)) (babs (snd z)))) l (F.fromZ 0).
 Definition ok (c : casety) : nat :=
   let '(s1, s2, raw, coeffs, okind, obs) := c in
-  let m := intersect NumB atol8 blen (fun _ => polyroots01_of NumB rtol5 atol8 raw) no_bbK no_arcK s1 s2 in
+  let m := intersect NumB atol8 blen (fun _ => polyroots01_of NumB @DEDUP@ rtol5 atol8 raw) no_bbK no_arcK s1 s2 in
   let '(bez, l0, l1) := match s1, s2 with
                         | SLine a b, _ => (bpoints s2, a, b)
                         | _, SLine a b => (bpoints s1, a, b)
@@ -146,7 +146,7 @@ Definition eps6 : Qc := two_pow_neg 20.
 Definition ok (c : casety) : nat :=
   let '(s1, s2, maxits, okind, obs) := c in
   let m := intersect NumQ atol8 (fun _ _ => Q2Qc 1) (fun _ => [])
-             (fun b1 b2 => bezier_intersections NumQ (bbox_quad NumQ) tol12 tol12 b1 maxits b2) no_arcK s1 s2 in
+             (fun b1 b2 => bezier_intersections NumQ @RMFIX@ (bbox_quad NumQ) tol12 tol12 b1 maxits b2) no_arcK s1 s2 in
   match m with
   | IOk l => if negb (Nat.eqb okind 0) then 3
              else if lclose (pclose Qc_eq_bool Qc_eq_bool) l obs then 0      (* identical dyadic parameters, same order *)
@@ -419,7 +419,8 @@ def tie_bezline(rng, K, tmp, n):
             ic.seg_term(s1, cbf, bf), ic.seg_term(s2, cbf, bf), coq_list([cbf(z) for z in raw]),
             coq_list([bf(c.real) for c in coeffs]), k, ic.pairs_term(res, bf)))
         meta.append((d1, d2, {'config': cfg}, res, raw))
-    okdef = OK_G2.replace('@RTOL@', bf(1e-5)).replace('@ATOL@', bf(1e-8))
+    okdef = OK_G2.replace('@RTOL@', bf(1e-5)).replace('@ATOL@', bf(1e-8)).replace(
+        '@DEDUP@', common.coq_bool(ic.detect_variants()['dedup_fixed']))
     fails, errors = common.run_cases(tmp, '', 'casety', okdef, cases, shard=60, prefix='g2')
     for idx, code in fails:
         d1, d2, m, res, raw = meta[idx]
@@ -455,7 +456,8 @@ def tie_worklist(rng, K, tmp, n, rep):
             continue
         cases.append('(%s, %s, %d, %d, %s)' % (ic.seg_term(s1), ic.seg_term(s2), mi, k, ic.pairs_term(res)))
         meta.append((d1, d2, {'config': cfg}, res))
-    okdef = OK_G3.replace('@ATOL@', qc(1e-8)).replace('@TOL@', qc(1e-12))
+    okdef = OK_G3.replace('@ATOL@', qc(1e-8)).replace('@TOL@', qc(1e-12)).replace(
+        '@RMFIX@', common.coq_bool(ic.detect_variants()['rm_fixed']))
     fails, errors = common.run_cases(tmp, '', 'casety', okdef, cases, shard=8, prefix='g3', timeout=600)
     div1 = [f for f in fails if f[1] == 1]
     hard = [f for f in fails if f[1] != 1]
@@ -575,7 +577,7 @@ def run_paths(rep, K, tmp, rng, n, secs, only=None):
     for idx, code in fails:
         replay, which, dupseg, scale = g4meta[idx]
         if dupseg:
-            K.add('path-intersect-index-duplicate-segment',
+            K.add(ic.pinned_key('path-intersect-index-duplicate-segment', ic.detect_variants()['idx_fixed']),
                   'C11: Path.intersect returns, for a segment object that occurs at a later position of path%d, the T of the first '
                   'EQUAL segment (t2T uses list.index): T does not belong to the traversal the entry came from' % which,
                   replay, scale)
@@ -593,6 +595,9 @@ def run(rep, tier, seed, replay=None):
     with common.Scratch() as tmp:
         info = common.std_static(rep, 'C11', GEN_GROUPS, AGREE, tmp)
         K = Keyed(rep)
+        var = ic.detect_variants()
+        rep.cov['implementation_variants'] = {k: v for k, v in var.items() if k != 'notes'}
+        rep.notes += var['notes']
         boost = 2 if (info['agree_failed'] or info['untranslated'].keys() - {'gen_bezier_by_line_2'}) else 1
         if replay:
             r = json.load(open(replay))['replay']
